@@ -11,6 +11,9 @@
 #include <cstdio>
 #include <cstdlib>
 #include <cstring>
+#include <iterator>
+#include <igris/util/ctrdtr.h>
+#include <igris/container/flat_map_view.h>
 
 // heap-owning value: lifetime errors of the underlying vector become ASan reports
 struct Box
@@ -95,7 +98,9 @@ struct FlatBase
 };
 
 // MK = key type of the map, Key = key type of the set
-template <class Map, class Set, class Val, class Key, class MK = int> struct FlatOps : FlatBase
+// HOSTED = the storage is the libstdc++ vector: the members of flat_map / flat_set that forward to vector members
+// igris::vector does not have (cbegin/cend, crbegin/crend, max_size, shrink_to_fit, swap, get_allocator) compile
+template <class Map, class Set, class Val, class Key, class MK = int, bool HOSTED = true> struct FlatOps : FlatBase
 {
     Map fm;
     Set fs;
@@ -209,6 +214,94 @@ template <class Map, class Set, class Val, class Key, class MK = int> struct Fla
             ret = std::to_string(fm.size());
         else if (op == "ssize")
             ret = std::to_string(fs.size());
+        else if (op == "miter")
+        { // for (it = begin(); it != end(); ++it): std::map visits the entries in key order
+            ret = "";
+            const Map &cf = fm;
+            std::string r2;
+            for (auto it = fm.begin(); it != fm.end(); ++it)
+                ret += (ret.empty() ? "" : ",") + std::to_string(unbox(it->first)) + ">" + std::to_string(unbox(it->second));
+            for (auto it = cf.begin(); it != cf.end(); ++it)
+                r2 += (r2.empty() ? "" : ",") + std::to_string(unbox(it->first)) + ">" + std::to_string(unbox(it->second));
+            if (r2 != ret)
+                ret += "!const";
+            if (ret.empty())
+                ret = "-";
+            if (fm.empty() != (fm.size() == 0))
+                ret += "!empty";
+        }
+        else if (op == "meq")
+        { // operator== / != against a map with the same entries put in through operator[] in REVERSE order
+            Map c;
+            P ent[64];
+            size_t n = 0;
+            for (auto it = fm.begin(); it != fm.end() && n < 64; ++it)
+                ent[n++] = *it;
+            for (size_t i = n; i-- > 0;)
+                c[ent[i].first] = ent[i].second;
+            ret = std::to_string(c == fm) + std::to_string(c != fm);
+        }
+        else if (op == "mcget")
+        { // const operator[]: the mapped value, T() for an absent key, nothing inserted
+            const Map &cf = fm;
+            const Val &ref = cf[mk(a[1])];
+            ret = std::to_string(unbox(ref));
+        }
+        else if (op == "mmisc")
+        { // the rest of flat_map's interface: c/r iterators, reserve/capacity/shrink_to_fit/max_size, swap, empty
+            if constexpr (HOSTED)
+            {
+                auto show = [](const std::string &acc, const P &e) { return acc + (acc.empty() ? "" : ",") + std::to_string(unbox(e.first)) + ">" + std::to_string(unbox(e.second)); };
+                const Map &cf = fm;
+                std::string f1, f2, r1, r2, r3;
+                for (auto it = cf.cbegin(); it != cf.cend(); ++it) f1 = show(f1, *it);
+                for (auto it = fm.rbegin(); it != fm.rend(); ++it) r1 = show(r1, *it);
+                for (auto it = cf.rbegin(); it != cf.rend(); ++it) r2 = show(r2, *it);
+                for (auto it = cf.crbegin(); it != cf.crend(); ++it) r3 = show(r3, *it);
+                fm.reserve(fm.size() + 3);
+                bool capok = fm.capacity() >= fm.size() + 3;
+                fm.shrink_to_fit();
+                Map other;
+                other.swap(fm);                 // fm empty, other holds the entries
+                bool e1 = fm.empty() && fm.size() == 0 && !(other.empty() && other.size());
+                fm.swap(other);
+                for (auto it = fm.begin(); it != fm.end(); ++it) f2 = show(f2, *it);
+                ret = (f1.empty() ? "-" : f1) + "|" + (r1.empty() ? "-" : r1) + "|" + std::to_string(r1 == r2 && r2 == r3 && f1 == f2 && capok && e1 && fm.max_size() > 0);
+            }
+        }
+        else if (op == "smisc")
+        { // the rest of flat_set's interface: cbegin, begin() const, get_allocator
+            if constexpr (HOSTED)
+            {
+                const Set &cs = fs;
+                (void)cs.get_allocator();
+                size_t n1 = (size_t)std::distance(cs.cbegin(), (typename Set::const_iterator)fs.end());
+                size_t n2 = (size_t)std::distance(cs.begin(), (typename Set::const_iterator)fs.end());
+                ret = std::to_string(n1) + "," + std::to_string(n2);
+            }
+        }
+        else if (op == "ctrdtr")
+        { // igris/util/ctrdtr.h on raw storage (vector.h uses constructor / move_constructor / destructor / array_destructor)
+            alignas(Box) unsigned char raw[4 * sizeof(Box)];
+            Box *q = (Box *)(void *)raw;
+            igris::array_constructor(q, q + 2, a[1]);
+            igris::copy_constructor(q + 2, (const Box &)q[0]);
+            igris::move_constructor(q + 3, std::move(q[1]));
+            ret = std::to_string(unbox(q[0])) + "," + std::to_string(unbox(q[2])) + "," + std::to_string(unbox(q[3])) + "," + std::to_string(q[1].p == nullptr);
+            igris::destructor(q + 1);
+            igris::array_destructor(q + 2, q + 4);
+            igris::destructor(q);
+        }
+        else if (op == "mview")
+        { // igris::flat_map_view over a fixed array {1>0, 4>10, 7>20, 10>30}: find / operator[] / size / iteration
+            std::pair<int, int> arr[4] = {{1, 0}, {4, 10}, {7, 20}, {10, 30}};
+            igris::flat_map_view<int, int> view(arr);
+            auto it = view.find(a[1]);
+            size_t n = 0;
+            for (auto &e : view)
+                n += e.first > 0;
+            ret = (it == view.end() ? std::string("end") : std::to_string(it - view.begin()) + ">" + std::to_string(view[a[1]])) + "," + std::to_string(view.size()) + "," + std::to_string(n);
+        }
         else if (op == "siter")
         {
             // for (it = begin(); it != end(); ++it)
